@@ -81,6 +81,8 @@ pub struct Pipe {
     pub read_total: usize,
     pub fin_issued: bool,
     pub fin_delivered: bool,
+    /// reads of this pipe fail with ConnectionErrorIncoming::InternalError(msg) (an error inside the transport glue)
+    pub inject_internal: Option<String>,
     pub reset: Option<u64>,
     pub reset_delivered: bool,
     pub reset_reported: bool,
@@ -141,6 +143,9 @@ pub struct EndState {
     /// the peer never grants this end more streams than it started with (a legal peer: RFC 9114 6.2 only asks for three
     /// unidirectional streams); no GrantStream move is ever enabled
     pub grants_frozen: bool,
+    /// streams waiting to be accepted are handed out newest first (the h3::quic traits do not promise stream-id order;
+    /// quinn happens to keep it, transports that surface a stream on its first data do not)
+    pub accept_newest_first: bool,
     pub open_wakers: [Vec<Waker>; 2],
     /// streams announced by the peer and not yet accepted, in id order
     pub accept_q: [VecDeque<u64>; 2],
@@ -630,7 +635,9 @@ fn poll_accept(net: &Net, side: Side, dir: Dir, cx: &mut Context<'_>) -> Poll<Re
     net.tick("poll_accept");
     let mut g = net.lock();
     // streams that were announced before the connection died stay acceptable (quinn does the same)
-    if let Some(id) = g.ends[side.idx()].accept_q[dir as usize].pop_front() {
+    let newest = g.ends[side.idx()].accept_newest_first;
+    let q = &mut g.ends[side.idx()].accept_q[dir as usize];
+    if let Some(id) = if newest { q.pop_back() } else { q.pop_front() } {
         let step = g.step;
         g.events.push((step, NetEvent::Accept { side, stream: id }));
         return Poll::Ready(Ok(id));
@@ -840,6 +847,9 @@ impl quic::RecvStream for SimRecv {
         let mut g = self.net.lock();
         let cerr = g.ends[self.side.idx()].conn_error();
         let p = g.pipes.get_mut(&(self.id, self.side.other())).expect("pipe");
+        if let Some(m) = &p.inject_internal {
+            return Poll::Ready(Err(StreamErrorIncoming::ConnectionErrorIncoming { connection_error: ConnectionErrorIncoming::InternalError(m.clone()) }));
+        }
         if p.stop.is_some() {
             // quinn: reading a stream we stopped is ClosedStream
             return Poll::Ready(Err(StreamErrorIncoming::Unknown(Box::new(SimError("read after stop_sending")))));
